@@ -92,9 +92,27 @@ def gen_poles(seed, shard, n, step):
 
                 def uniform(self, a, b):
                     return a
+
+                def random(self):
+                    return 0.9 * (k % 2)          # every other grid value: the run's long-lived frame argument
             for ev in _conv_one(C, A, _R(), lon, lat, G, pole):
                 if ev.get("k") in ("ecl", "hor", "raise"):
                     yield ev
+
+
+_LONG = {}
+
+
+def _long_lived(role, v):
+    """ONE Angle object per role (obliquity, observer latitude) for the whole run: it has been an argument of earlier
+    conversions with another value and is re-set in place to the value wanted now - what a caller does who keeps `eps`
+    around.  The conversions must read the value it holds NOW."""
+    from pymeeus.Angle import Angle
+    z = _LONG.get(role)
+    if z is None:
+        z = _LONG[role] = Angle(v)
+    z.set(v)
+    return z
 
 
 def _conv_one(C, A, rng, lon, lat, G, pole):
@@ -115,13 +133,16 @@ def _conv_one(C, A, rng, lon, lat, G, pole):
 
 def _conv_events(C, A, rng, lon, lat, G, pole):
     if True:
+        reuse = rng.random() < 0.5       # half of the directions: the frame argument is the run's long-lived object
+        AE = (lambda v: _long_lived("eps", v)) if reuse else A
+        AP = (lambda v: _long_lived("phi", v)) if reuse else A
         polar = max(abs(lat), 0.0)
         # --- ecliptical
         eps = rng.choice([0.0, 23.4392911, 30.0, rng.uniform(0, 30), 23.4392911 + rng.uniform(-1e-6, 1e-6)])
-        lo, la = C.equatorial2ecliptical(A(lon), A(lat), A(eps))
-        rb, db = C.ecliptical2equatorial(lo, la, A(eps))
-        qa, qd = C.ecliptical2equatorial(A(lon), A(lat), A(eps))
-        pl, pb = C.equatorial2ecliptical(qa, qd, A(eps))
+        lo, la = C.equatorial2ecliptical(A(lon), A(lat), AE(eps))
+        rb, db = C.ecliptical2equatorial(lo, la, AE(eps))
+        qa, qd = C.ecliptical2equatorial(A(lon), A(lat), AE(eps))
+        pl, pb = C.equatorial2ecliptical(qa, qd, AE(eps))
         yield {"k": "ecl", "in": [lon, lat, eps], "maxlat": max(polar, abs(float(la)), abs(float(qd))),
                "u": F3(U(lon, lat)), "ce": fx(math.cos(math.radians(eps))), "se": fx(math.sin(math.radians(eps))),
                "v": F3(U(float(lo), float(la))), "w": F3(U(float(rb), float(db))), "lon": fx(float(lo)), "lat": fx(float(la)),
@@ -129,10 +150,10 @@ def _conv_events(C, A, rng, lon, lat, G, pole):
                "lonq": fx(float(qa)), "latq": fx(float(qd))}
         # --- horizontal
         phi = rng.choice([0.0, 90.0, -90.0, 45.0, rng.uniform(-90, 90)])
-        az, el = C.equatorial2horizontal(A(lon), A(lat), A(phi))
-        hb, db = C.horizontal2equatorial(az, el, A(phi))
-        h2, d2 = C.horizontal2equatorial(A(lon), A(lat), A(phi))
-        a2, e2 = C.equatorial2horizontal(h2, d2, A(phi))
+        az, el = C.equatorial2horizontal(A(lon), A(lat), AP(phi))
+        hb, db = C.horizontal2equatorial(az, el, AP(phi))
+        h2, d2 = C.horizontal2equatorial(A(lon), A(lat), AP(phi))
+        a2, e2 = C.equatorial2horizontal(h2, d2, AP(phi))
         yield {"k": "hor", "in": [lon, lat, phi], "maxlat": max(polar, abs(float(el)), abs(float(d2))),
                "u": F3(U(lon, lat)), "sphi": fx(math.sin(math.radians(phi))), "cphi": fx(math.cos(math.radians(phi))),
                "v": F3(U(float(az), float(el))), "w": F3(U(float(hb), float(db))), "lat": fx(float(el)),
